@@ -17,6 +17,9 @@ MACROS = [b'$a', b'${a}', b'$<k>', b'x $ab y', b'${ab}z', b'$a$b', b'$a ${b} $<k
           'é $a ü'.encode(), b'no macro here', b'${a}${a}', b'$<k>$<zz>', b'a$']
 
 
+ALPHABET = [b'$', b'{', b'}', b'<', b'>', b'a', b'b', b'k', b' ', 'é'.encode(), b'A', b'1']
+
+
 class Localized(HostObj):
     host_type = 'GetLocalized'
 
@@ -43,6 +46,9 @@ def templates(ctx):
     for tg in TAGS: T.append({'name': 'kinds-' + tg.decode(), 'mode': 'kinds', 'tag': tg})
     for i, mc in enumerate(MACROS): T.append({'name': 'macro%d' % i, 'mode': 'macro', 'macro': mc})
     T.append({'name': 'no-dollar', 'mode': 'nodollar'})
+    # every macro text of length <= 3 (quick) / 4 (thorough) over the alphabet of the property
+    for L in range(1, (3 if ctx.quick() else 4) + 1):
+        for f in range(len(ALPHABET)): T.append({'name': 'alpha%d-%d' % (L, f), 'mode': 'alpha', 'len': L, 'first': f})
     return T
 
 
@@ -73,6 +79,16 @@ def path(ex, t):
         for tg in mentioned:
             k = ex.pick(5)
             if k < 4: pairs.append((tg, tag_value(h, l, k)))
+    elif t['mode'] == 'alpha':
+        syms = [ALPHABET[t['first']]] + [ALPHABET[ex.pick(len(ALPHABET))] for _ in range(t['len'] - 1)]
+        text = b''.join(syms)
+        pairs.append((b'disMacro', h.str_(list(text))))
+        # every name the documented syntax would look up is absent / a Str / a Ref with dis
+        for nm in sorted({tok[1] for tok in scan_macro(text) if tok[0] == 'tag'}):
+            if nm == b'disMacro': continue
+            k = ex.pick(3)
+            if k == 1: pairs.append((nm, h.str_([l.byte([(0x30, 0x7a)])])))
+            elif k == 2: pairs.append((nm, h.ref(list(b'r1'), list(b'R one'))))
     else:
         # text without '$': 3 symbolic bytes that are not '$'
         bs = [l.byte([(0x20, 0x23), (0x25, 0x7e)]) for _ in range(3)]
@@ -109,27 +125,55 @@ def spec_dis(rec, loc, default):
     return b'DEFAULT' if default else b''
 
 
+def is_name_start(c): return 0x61 <= c <= 0x7a
+def is_name_char(c): return 0x61 <= c <= 0x7a or 0x41 <= c <= 0x5a or 0x30 <= c <= 0x39 or c == 0x5f
+
+
+def scan_macro(pat):
+    """hand-written scanner for the documented macro syntax (independent of any regular-expression engine):
+    -> list of ('lit', bytes) | ('tag', name, source) | ('loc', key, source); `$tag` ends at the first non-tag character"""
+    out = []; i = 0; n = len(pat); lit = b''
+    while i < n:
+        c = pat[i]
+        if c == 0x24 and i + 1 < n:
+            d = pat[i + 1]
+            if is_name_start(d):
+                j = i + 2
+                while j < n and is_name_char(pat[j]): j += 1
+                if lit: out.append(('lit', lit)); lit = b''
+                out.append(('tag', pat[i + 1:j], pat[i:j])); i = j; continue
+            if d == 0x7b and i + 2 < n and is_name_start(pat[i + 2]):
+                j = i + 3
+                while j < n and is_name_char(pat[j]): j += 1
+                if j < n and pat[j] == 0x7d:
+                    if lit: out.append(('lit', lit)); lit = b''
+                    out.append(('tag', pat[i + 2:j], pat[i:j + 1])); i = j + 1; continue
+            if d == 0x3c:
+                j = pat.find(b'>', i + 2)
+                if j > i + 2:
+                    if lit: out.append(('lit', lit)); lit = b''
+                    out.append(('loc', pat[i + 2:j], pat[i:j + 1])); i = j + 1; continue
+        lit += bytes([c]); i += 1
+    if lit: out.append(('lit', lit))
+    return out
+
+
 def macro(pat, d, loc):
-    import re
     def val_text(v):
         if v['t'] == 'str': return bytes.fromhex(v['v'])
         if v['t'] == 'ref': return bytes.fromhex(v['dis'] if v.get('dis') is not None else v['v'])
         return None
-    out = b''; i = 0; unknown = False
-    # tag names as Haystack defines them: a lower case ASCII letter followed by any number of letters, digits, '_'
-    rx = re.compile(rb'\$([a-z][a-zA-Z0-9_]*)|\$\{([a-z][a-zA-Z0-9_]*)\}|\$<([^>]+)>')
-    for m in rx.finditer(pat):
-        out += pat[i:m.start()]; i = m.end()
-        if m.group(1) is not None or m.group(2) is not None:
-            nm = m.group(1) or m.group(2)
-            if nm in d:
-                tv = val_text(d[nm])
+    out = b''
+    for tok in scan_macro(pat):
+        if tok[0] == 'lit': out += tok[1]
+        elif tok[0] == 'tag':
+            if tok[1] in d:
+                tv = val_text(d[tok[1]])
                 if tv is None: return None
                 out += tv
-            else: out += m.group(0)
-        else:
-            out += loc.get(m.group(3), m.group(0))
-    return out + pat[i:]
+            else: out += tok[2]
+        else: out += loc.get(tok[1], tok[2])
+    return out
 
 
 def post(ex, t, r):
